@@ -528,6 +528,21 @@ func Check(env *core.Env, rep *core.Report) *core.Result {
 	// (B3) through the binary: one task used by two stages WITHOUT settings of their own, one after the
 	// other, then read by a dependant: every run's captured output is that run's output (not the
 	// outputs of both runs piled up in one shared buffer)
+	{
+		// a stage's NAME is not a task name: a stage called `shared` must not touch SHARED_OUTPUT, which
+		// task alpha exports (exportAs); nor does the stage of task beta, called `alpha`-like, matter
+		d := env.Sub("c11b4")
+		home := env.Sub("c11home4")
+		seen := filepath.Join(d, "seen")
+		y := fmt.Sprintf("tasks:\n  alpha:\n    exportAs: SHARED_OUTPUT\n    command: [\"echo from-alpha\"]\n  beta:\n    command: [\"echo from-beta\"]\n  reader:\n    command:\n      - 'printf \"[%%s|%%s]\" \"$SHARED_OUTPUT\" \"$BETA_OUTPUT\" > %s'\npipelines:\n  p:\n    - task: alpha\n    - name: shared\n      task: beta\n      depends_on: [alpha]\n    - task: reader\n      depends_on: [shared]\n", seen)
+		_ = ioutil.WriteFile(filepath.Join(d, "tasks.yaml"), []byte(y), 0o644)
+		res := core.RunBin(d, core.CleanEnv(home), 30*time.Second, "", env.Taskctl, "--raw", "p")
+		atomic.AddInt64(&evals, 1)
+		b, _ := ioutil.ReadFile(seen)
+		if want := "[from-alpha\n|from-beta\n]"; res.Exit != 0 || string(b) != want {
+			add("handover:dependant-sees-different-bytes", fmt.Sprintf("alpha exports SHARED_OUTPUT, a stage named `shared` runs task beta after it, a dependant reads both: saw %q (exit %d), expected %q", string(b), res.Exit, want), map[string]interface{}{"yaml": y, "stderr": clip(res.Stderr)})
+		}
+	}
 	for k := 0; k < 2; k++ {
 		// and: the second run of the task prints NOTHING (the stage silences it): its output is the empty
 		// text, not what an earlier run left behind
